@@ -27,6 +27,8 @@ Schema == [
                  Q(13, Set(Ref("input"), 1)), Q(14, Set(H28, 1)), Q(15, UIntMax(1)), Q(16, Ref("output")), Q(17, Coin),
                  Q(18, Set(Ref("input"), 1)), Q(19, Ref("voting_procedures")), Q(20, Set(Ref("proposal"), 1)), Q(21, Coin), Q(22, PosUInt)>>),
   input |-> Arr(<<F(H32), F(UIntMax(65535))>>),
+  utxo |-> Arr(<<F(Ref("input")), F(Ref("output"))>>),                 \* TransactionUnspentOutput (CIP-30 exchange form)
+  versioned_block |-> Arr(<<F(UIntMax(7)), F(Ref("block"))>>),
   output |-> Alt(<<Arr(<<F(Addr), F(Ref("value")), O(H32)>>),
                    OutMap(Map(<<K(0, Addr), K(1, Ref("value")), Q(2, Ref("datum_option")), Q(3, Cbor(Ref("script")))>>))>>),
   datum_option |-> ArrV(<< Arr(<<F(Const(0)), F(H32)>>), Arr(<<F(Const(1)), F(Cbor(Ref("plutus_data")))>>) >>),
